@@ -148,7 +148,10 @@ func ruleErrDrop(c *Ctx, r *Rep) {
 }
 
 func shortCallee(c *Ctx, name string) string {
-	s := strings.ReplaceAll(name, c.Mod+"/generator/db/", ""); s = strings.ReplaceAll(s, c.Mod+"/generator/config/", ""); s = strings.ReplaceAll(s, c.Mod+"/generator/", ""); return strings.ReplaceAll(s, c.Mod+"/", "")
+	s := strings.ReplaceAll(name, c.Mod+"/generator/db/", "")
+	s = strings.ReplaceAll(s, c.Mod+"/generator/config/", "")
+	s = strings.ReplaceAll(s, c.Mod+"/generator/", "")
+	return strings.ReplaceAll(s, c.Mod+"/", "")
 }
 
 // ---- helpers shared by the error-flow rules ----
